@@ -962,10 +962,10 @@ var junkNonUtf8 = []string{"1\xff", "bob\xc3", "a\x00b", "7\xf0\x9f", "x\xed\xa0
 
 func pickInput(rng *rand.Rand, p *Program) string {
 	if rng.Intn(8) == 0 {
-		if rng.Intn(4) == 0 {
-			return junkTemplate[rng.Intn(len(junkTemplate))]
-		}
 		if echoFunctions && rng.Intn(3) == 0 {
+			if rng.Intn(2) == 0 {
+				return junkTemplate[rng.Intn(len(junkTemplate))]
+			}
 			return junkNonUtf8[rng.Intn(len(junkNonUtf8))]
 		}
 		return junkInputs[rng.Intn(len(junkInputs))]
